@@ -6,7 +6,11 @@ Open Scope string_scope.
 Definition call_obs := (list kval * kvmap * option string)%type.
 (* group1: call forms that bind to the same arguments; group2: forms binding to arguments that differ
    from group1's in a parameter the template mentions (separable value types) when sep = true *)
-Inductive case := CKey (s : sig) (t : template) (given : bool) (g1 g2 : list call_obs) (sep : bool).
+Inductive case :=
+| CKey (s : sig) (t : template) (given : bool) (g1 g2 : list call_obs) (sep : bool)
+(* templates outside the modelled rendering fragment (format functions such as {x:hash}): judged by the property's own
+   words only - equal bound arguments give one key, separable ones give two - with no model key to compare with *)
+| CKeyOpaque (g1 g2 : list call_obs) (sep : bool).
 
 Definition ostr_eqb := option_eqb String.eqb.
 Definition agree_call (s : sig) (t : template) (given : bool) (c : call_obs) : bool :=
@@ -25,8 +29,13 @@ Definition judge (c : case) : verdict :=
        all_same g1 && all_same g2 &&
        (if sep then negb (ostr_eqb (first_key g1) (first_key g2)) else true),
        [])
+  | CKeyOpaque g1 g2 sep =>
+      (true, all_same g1 && all_same g2 && (if sep then negb (ostr_eqb (first_key g1) (first_key g2)) else true), [])
   end.
 Definition explain (c : case) :=
-  match c with CKey s t given g1 g2 _ =>
+  match c with
+  | CKey s t given g1 g2 _ =>
     (map (fun c => cache_key s t given (fst (fst c)) (snd (fst c))) g1,
-     map (fun c => cache_key s t given (fst (fst c)) (snd (fst c))) g2) end.
+     map (fun c => cache_key s t given (fst (fst c)) (snd (fst c))) g2)
+  | CKeyOpaque _ _ _ => ([], [])
+  end.
